@@ -1,1 +1,285 @@
-(* placeholder; being written *)
+(** C20 — Quotes equal execution: a view's promise is what the operation delivers.
+    "In any state, the amount a read-only quote returns is exactly what executing the corresponding
+    operation in that same state delivers ... Quoting never changes state."
+
+    Views: coq/Model/Quotes.v (QPair, QFarm, QStk, QPen, QPd); operations: the subsystem models.
+    Every theorem is for ALL states satisfying the subsystem invariant and all arguments. *)
+From MX Require Import Base.Prelude Gen.Params Model.Quotes Proofs.QuotesProofs.
+From MX Require Model.Pair Model.Farm Model.Staking Model.Penalty Model.PriceDiscovery.
+From MX Require Proofs.PairInv Proofs.FarmInv Proofs.PenaltyProofs.
+
+(** ------------------------------------------------------------------ pair: getAmountOut / swapTokensFixedInput
+    search focus: fee 0 and maximal, reserves 1..1e30, inputs where the floor is inexact *)
+Theorem C20_amount_out : forall p c tin ain tout mn p' outs e,
+  PairInv.PairInv p -> Pair.ep_swap_in p c tin ain tout mn = Ok (p', outs, e) ->
+  exists y, QPair.get_amount_out p tin ain = Ok y /\ outs = [y] /\ 0 < mn <= y.
+Proof. exact PairQ.amount_out_exec. Qed.
+Print Assumptions C20_amount_out.
+
+(** the view's guards (zero input, zero reserve, unknown token, amount not below the reserve) and a
+    quote of 0 are refusals of the swap as well *)
+Theorem C20_amount_out_refuses : forall p c tin ain tout mn,
+  PairInv.PairInv p -> (forall y, QPair.get_amount_out p tin ain = Ok y -> y = 0) ->
+  is_ok (Pair.ep_swap_in p c tin ain tout mn) = false.
+Proof. exact PairQ.amount_out_refuses. Qed.
+Print Assumptions C20_amount_out_refuses.
+
+(** conversely a positive quote IS delivered for the opposite token in the Active state with any
+    minimum up to the quote, as long as no special-fee destination is configured (with one, the swap
+    can additionally fail inside send_fee, which the view does not evaluate) *)
+Theorem C20_amount_out_live : forall p c tin ain tout mn y ord,
+  PairInv.PairInv p -> QPair.get_amount_out p tin ain = Ok y -> 0 < y ->
+  Pair.swap_order tin tout = Ok ord -> Pair.p_state p = ST_Active -> 0 < mn <= y -> Pair.fee_enabled p = false ->
+  exists p', Pair.ep_swap_in p c tin ain tout mn = Ok (p', [y], Pair.no_eff).
+Proof. exact PairQ.amount_out_live. Qed.
+Print Assumptions C20_amount_out_live.
+
+(** ------------------------------------------------------------------ pair: getAmountIn / swapTokensFixedOutput
+    charged = quote; returned = [amount wanted; maximum - quote] *)
+Theorem C20_amount_in : forall p c tin amax tout aout p' outs e,
+  PairInv.PairInv p -> Pair.ep_swap_out p c tin amax tout aout = Ok (p', outs, e) ->
+  exists x, QPair.get_amount_in p tout aout = Ok x /\ outs = [aout; amax - x] /\ 0 < x <= amax.
+Proof. exact PairQ.amount_in_exec. Qed.
+Print Assumptions C20_amount_in.
+
+Theorem C20_amount_in_refuses : forall p c tin amax tout aout er,
+  PairInv.PairInv p -> QPair.get_amount_in p tout aout = Err er ->
+  is_ok (Pair.ep_swap_out p c tin amax tout aout) = false.
+Proof. exact PairQ.amount_in_err. Qed.
+Print Assumptions C20_amount_in_refuses.
+
+Theorem C20_amount_in_live : forall p c tin amax tout aout x ord,
+  PairInv.PairInv p -> QPair.get_amount_in p tout aout = Ok x ->
+  Pair.swap_order tin tout = Ok ord -> Pair.p_state p = ST_Active -> x <= amax -> Pair.fee_enabled p = false ->
+  exists p', Pair.ep_swap_out p c tin amax tout aout = Ok (p', [aout; amax - x], Pair.no_eff).
+Proof. exact PairQ.amount_in_live. Qed.
+Print Assumptions C20_amount_in_live.
+
+(** ------------------------------------------------------------------ pair: getTokensForGivenPosition / removeLiquidity *)
+Theorem C20_tokens_for_position : forall p c lp m1 m2 p' outs e,
+  PairInv.PairInv p -> Pair.ep_remove p c lp m1 m2 = Ok (p', outs, e) ->
+  outs = [fst (QPair.get_tokens_for_given_position p lp); snd (QPair.get_tokens_for_given_position p lp)].
+Proof. exact PairQ.tokens_for_position_exec. Qed.
+Print Assumptions C20_tokens_for_position.
+
+(** the view has no guards; removal with minimum amounts 1 pays the quoted pair EXACTLY when
+    [remove_guards] holds (active, caller other than the pair holds the LP, minimum liquidity stays,
+    both quoted sides positive and below the reserves) and is refused otherwise *)
+Theorem C20_tokens_for_position_iff : forall p c lp,
+  PairInv.PairInv p -> (is_ok (Pair.ep_remove p c lp 1 1) = true <-> PairQ.remove_guards p c lp).
+Proof. exact PairQ.tokens_for_position_iff. Qed.
+Print Assumptions C20_tokens_for_position_iff.
+
+Theorem C20_tokens_for_position_live : forall p c lp,
+  PairInv.PairInv p -> PairQ.remove_guards p c lp ->
+  exists p', Pair.ep_remove p c lp 1 1 =
+    Ok (p', [fst (QPair.get_tokens_for_given_position p lp); snd (QPair.get_tokens_for_given_position p lp)], Pair.no_eff).
+Proof. exact PairQ.tokens_for_position_live. Qed.
+Print Assumptions C20_tokens_for_position_live.
+
+(** ------------------------------------------------------------------ dex/farm (and farm-with-locked-rewards):
+    calculateRewardsForGivenPosition(caller, amount, attributes) = what claimRewards pays, base + boosted(caller).
+    [b] is the boosted amount of the caller in this state (input of Model/Farm.v, assumption A-C20-BOOSTED).
+    search focus: blocks elapsed since the last settlement, partial positions, index differences below DSC *)
+Theorem C20_farm_rewards : forall f blk ep c n0 x0 adds b f' o,
+  FarmInv.FarmAcc f -> Farm.ep_claim f blk ep c (n0, x0) adds b = Ok (f', o) ->
+  exists a nn amt v,
+    Farm.find_attrs (Farm.f_attrs f) n0 = Some a /\ QFarm.calc_rewards f blk x0 a b = Ok v /\ o = [nn; amt; v].
+Proof. exact FarmQ.farm_rewards_exec. Qed.
+Print Assumptions C20_farm_rewards.
+
+Theorem C20_farm_rewards_total : forall f blk x a b, FarmInv.MI f -> exists v, QFarm.calc_rewards f blk x a b = Ok v.
+Proof. exact FarmQ.calc_rewards_total. Qed.
+Print Assumptions C20_farm_rewards_total.
+
+(** ------------------------------------------------------------------ farm-staking.
+    FULL statement (refuted, finding F3):
+      forall s blk ep c x arps b s' nn paid, QStk.claim s blk ep c x arps b = Ok (s', [nn; x; paid]) ->
+        QStk.calc_rewards s blk x arps = Ok paid.
+    Proved instead: the view is the BASE part of the payment in every state; the rest is exactly the
+    claimer's boosted reward [b] (so quote = payment iff b = 0); missing for the full statement: the
+    view would have to add boosted(claimer), but it evaluates boosted(zero address) = 0. *)
+Theorem C20_staking_rewards_partial : forall s blk ep c x arps b s' o,
+  QStk.claim s blk ep c x arps b = Ok (s', o) ->
+  exists base nn, QStk.calc_rewards s blk x arps = Ok base /\ o = [nn; x; base + b] /\ 0 <= b.
+Proof. exact StkQ.staking_rewards_base. Qed.
+Print Assumptions C20_staking_rewards_partial.
+
+Theorem C20_staking_difference : forall s blk ep c x arps b s' nn amt paid v,
+  QStk.claim s blk ep c x arps b = Ok (s', [nn; amt; paid]) -> QStk.calc_rewards s blk x arps = Ok v ->
+  paid - v = b /\ 0 <= b /\ amt = x.
+Proof. exact StkQ.staking_difference. Qed.
+Print Assumptions C20_staking_difference.
+
+Theorem C20_staking_refuted :
+  exists s blk ep c x arps b s' nn v paid,
+    QStk.claim s blk ep c x arps b = Ok (s', [nn; x; paid]) /\ QStk.calc_rewards s blk x arps = Ok v /\ v <> paid.
+Proof. exact StkQ.staking_refuted. Qed.
+Print Assumptions C20_staking_refuted.
+
+(** ------------------------------------------------------------------ energy factory: getPenaltyAmount.
+    unlockEarly: quote(amount, remaining epochs, 0) = locked amount parked - base asset minted;
+    reduceLockPeriod: quote(amount, remaining epochs, remaining epochs of the token handed back) =
+    amount - returned amount.
+    search focus: remaining epochs at option boundaries, amounts 1 and 10000 +- 1, month boundaries *)
+Theorem C20_penalty :
+  (forall s c e amt s' o, Penalty.ep_unlock_early s c e amt = Ok (s', o) ->
+     exists pen,
+       QPen.get_penalty_amount s amt (QPen.prev_epochs s e) 0 = Ok pen /\ pen < amt /\
+       Penalty.l_q s' = Penalty.l_q s ++
+         [Penalty.mkE c (Penalty.l_now s + Penalty.c_unbond (Penalty.l_cfg s)) e amt (amt - pen)] /\
+       Penalty.g_bmint (Penalty.l_g s') = Penalty.g_bmint (Penalty.l_g s) + (amt - pen) /\
+       Penalty.bal (Penalty.l_led s') Penalty.UNSTAKE 0 = Penalty.bal (Penalty.l_led s) Penalty.UNSTAKE 0 + (amt - pen)) /\
+  (forall b0 s c e amt le s' o, PenaltyProofs.Inv b0 s -> Penalty.ep_reduce s c e amt le = Ok (s', o) ->
+     exists pen,
+       QPen.get_penalty_amount s amt (QPen.prev_epochs s e) (QPen.new_epochs_reduce s le) = Ok pen /\ 0 <= pen < amt /\
+       o = [Penalty.l_now s + QPen.new_epochs_reduce s le; amt - pen] /\
+       0 < QPen.new_epochs_reduce s le < QPen.prev_epochs s e).
+Proof. exact PenQ.penalty_quote. Qed.
+Print Assumptions C20_penalty.
+
+Theorem C20_penalty_refuses :
+  (forall s c e amt er, QPen.get_penalty_amount s amt (QPen.prev_epochs s e) 0 = Err er ->
+     is_ok (Penalty.ep_unlock_early s c e amt) = false) /\
+  (forall b0 s c e amt le er, PenaltyProofs.Inv b0 s ->
+     QPen.get_penalty_amount s amt (QPen.prev_epochs s e) (QPen.new_epochs_reduce s le) = Err er ->
+     is_ok (Penalty.ep_reduce s c e amt le) = false).
+Proof. exact PenQ.penalty_errors. Qed.
+Print Assumptions C20_penalty_refuses.
+
+(** conversely the quoted penalty IS charged: unlockEarly succeeds whenever the factory is not paused,
+    the caller holds the still-locked token and the quote leaves something (quote < amount) *)
+Theorem C20_penalty_unlock_early_live : forall b0 s c e amt pen,
+  PenaltyProofs.Inv b0 s -> c <> Penalty.UNSTAKE -> Penalty.paused s = false -> 0 < e -> Penalty.l_now s < e ->
+  0 < amt <= Penalty.bal (Penalty.l_led s) c e ->
+  QPen.get_penalty_amount s amt (QPen.prev_epochs s e) 0 = Ok pen -> pen < amt ->
+  exists s', Penalty.ep_unlock_early s c e amt = Ok (s', []) /\
+    Penalty.l_q s' = Penalty.l_q s ++
+      [Penalty.mkE c (Penalty.l_now s + Penalty.c_unbond (Penalty.l_cfg s)) e amt (amt - pen)].
+Proof. exact PenQ.penalty_unlock_early_live. Qed.
+Print Assumptions C20_penalty_unlock_early_live.
+
+(** ------------------------------------------------------------------ price discovery.
+    The gate and the penalty of deposit / withdraw / redeem are those of the phase getCurrentPhase
+    reports in that block (and still reports after the operation); the price compared with the
+    minimum is getCurrentPrice evaluated on the balances the operation leaves (same block).
+    search focus: phase boundaries -1/0/+1, durations 0 and 1, amounts at the price floor +-1 *)
+Theorem C20_phase_price :
+  (forall s c tok amt s' o, PriceDiscovery.ep_deposit s c tok amt = Ok (s', o) ->
+     exists ph price,
+       QPd.current_phase s = Ok ph /\ PriceDiscovery.deposit_allowed ph = true /\ QPd.current_phase s' = Ok ph /\
+       QPd.current_price s' = Ok price /\
+       (tok = PriceDiscovery.TOK_L ->
+        PriceDiscovery.p_ab s = 0 \/ PriceDiscovery.c_minp (PriceDiscovery.p_cfg s) <= price)) /\
+  (forall s c n amt s' o, PriceDiscovery.ep_withdraw s c n amt = Ok (s', o) ->
+     exists ph price,
+       QPd.current_phase s = Ok ph /\ PriceDiscovery.withdraw_allowed ph = true /\ QPd.current_phase s' = Ok ph /\
+       o = [amt - amt * PriceDiscovery.penalty_of ph / PriceDiscovery.MAXP] /\
+       QPd.current_price s' = Ok price /\ PriceDiscovery.c_minp (PriceDiscovery.p_cfg s) <= price) /\
+  (forall s c n amt s' o, PriceDiscovery.ep_redeem s c n amt = Ok (s', o) ->
+     QPd.current_phase s = Ok PriceDiscovery.PhRedeem).
+Proof. exact PdQ.phase_price_quote. Qed.
+Print Assumptions C20_phase_price.
+
+Theorem C20_phase_gates : forall s ph, QPd.current_phase s = Ok ph ->
+  (PriceDiscovery.deposit_allowed ph = false -> forall c tok amt, is_ok (PriceDiscovery.ep_deposit s c tok amt) = false) /\
+  (PriceDiscovery.withdraw_allowed ph = false -> forall c n amt, is_ok (PriceDiscovery.ep_withdraw s c n amt) = false) /\
+  (PriceDiscovery.redeem_allowed ph = false -> forall c n amt, is_ok (PriceDiscovery.ep_redeem s c n amt) = false).
+Proof. exact PdQ.gates_follow_view. Qed.
+Print Assumptions C20_phase_gates.
+
+Theorem C20_price_floor : forall s c amt price,
+  0 < PriceDiscovery.p_ab s ->
+  QPd.current_price (PriceDiscovery.set_tr s true (PriceDiscovery.p_lb s + amt)) = Ok price ->
+  price < PriceDiscovery.c_minp (PriceDiscovery.p_cfg s) ->
+  is_ok (PriceDiscovery.ep_deposit s c PriceDiscovery.TOK_L amt) = false.
+Proof. exact PdQ.floor_follows_view. Qed.
+Print Assumptions C20_price_floor.
+
+(** ------------------------------------------------------------------ quoting never changes state.
+    Views are functions [state -> value]: no state is returned, nothing can change (the harness checks
+    the same on the contracts with storage digests around every query).  The reward views settle a
+    storage cache first; that discarded cache is what the next claimRewards of the same block
+    settles and keeps. *)
+Theorem C20_views_pure :
+  (forall f blk ep c n0 x0 adds b f' o,
+     FarmInv.FarmAcc f -> Farm.ep_claim f blk ep c (n0, x0) adds b = Ok (f', o) ->
+     exists f1 f2 fv,
+       Farm.pay_all f c ((n0, x0) :: adds) = Ok f1 /\ Farm.settle f1 blk = Ok f2 /\
+       QFarm.query_cache f blk = Ok fv /\ FarmInv.same_but_toks fv f2) /\
+  (forall s blk ep c x arps b s' o,
+     QStk.claim s blk ep c x arps b = Ok (s', o) ->
+     exists s1 s2 r, QStk.query_cache s blk = Ok s1 /\ Staking.pay s1 r b = Ok s2 /\
+                     s' = Staking.bump s2 /\ o = [Staking.s_next s2; x; r]).
+Proof. exact views_pure. Qed.
+Print Assumptions C20_views_pure.
+
+(** ------------------------------------------------------------------ non-vacuity: concrete reachable states
+    (the same histories are executed on the real contracts by tools/props/c20.py, CORPUS) *)
+Example C20_pair_nonvacuous :
+  let p := Pair.run (Pair.init_pair 300 50 None) [Pair.SetState Pair.OWNER 1; Pair.Add 1 1000000 4000000 1 1] in
+  match Pair.step p (Pair.SwapIn 2 1 12345 2 1), QPair.get_amount_out p 1 12345 with
+  | Ok (p1, [a], _), Ok y =>
+      a = y /\ y = 48633 /\
+      match Pair.step p1 (Pair.SwapOut 2 2 1000000000 1 777), QPair.get_amount_in p1 1 777 with
+      | Ok (p2, [b; r], _), Ok x =>
+          b = 777 /\ 1000000000 - r = x /\ x = 3045 /\
+          match Pair.step p2 (Pair.Remove 1 333333 1 1), QPair.get_tokens_for_given_position p2 333333 with
+          | Ok (_, [x1; x2], _), (v1, v2) => x1 = v1 /\ x2 = v2 /\ 0 < v1 /\ 0 < v2
+          | _, _ => False
+          end
+      | _, _ => False
+      end
+  | _, _ => False
+  end.
+Proof. vm_compute. repeat split. Qed.
+
+Example C20_farm_nonvacuous :
+  let f := Farm.frun (Farm.init_farm 1000000000000 false)
+             [Farm.FSetRate 10 Farm.OWNER 1000; Farm.FSetState Farm.OWNER 1; Farm.FStart 10 Farm.OWNER;
+              Farm.FSetPct 10 Farm.OWNER 2500; Farm.FSetFactors Farm.OWNER;
+              Farm.FEnter 10 5 1 100000000 [] 0; Farm.FEnter 10 5 2 100000000 [] 0] in
+  match Farm.fstep f (Farm.FClaim 20 5 1 (1, 40000000) [] 7),
+        QFarm.calc_rewards f 20 40000000 (Farm.mkAttrs 0 5 0 100000000 1) 7 with
+  | Ok (_, [_; _; paid]), Ok v => paid = v /\ v = 1507
+  | _, _ => False
+  end.
+Proof. vm_compute. repeat split. Qed.
+
+Example C20_staking_nonvacuous :
+  match QStk.claim StkQ.f3_state 30 12 2 100000000 37500000 1041, QStk.calc_rewards StkQ.f3_state 30 100000000 37500000 with
+  | Ok (_, [_; _; paid]), Ok v => v = 3750 /\ paid = 4791
+  | _, _ => False
+  end.
+Proof. vm_compute. repeat split. Qed.
+
+Example C20_penalty_nonvacuous :
+  match Penalty.init_cfg [(360, 4000); (720, 6000); (1440, 8000)] 10 5000 with
+  | Ok c =>
+      let s := Penalty.run (Penalty.init_state c 31 [(1, 1000000)]) [Penalty.Lock 1 100000 720 1; Penalty.Advance 100] in
+      match Penalty.step s (Penalty.Reduce 1 750 40000 360), QPen.get_penalty_amount s 40000 (QPen.prev_epochs s 750) (QPen.new_epochs_reduce s 360),
+            Penalty.step s (Penalty.UnlockEarly 1 750 60000), QPen.get_penalty_amount s 60000 (QPen.prev_epochs s 750) 0 with
+      | Ok (_, [nu; un]), Ok pen, Ok (s2, _), Ok pen0 =>
+          un = 40000 - pen /\ 0 < pen /\ 0 < pen0 /\
+          Penalty.bal (Penalty.l_led s2) Penalty.UNSTAKE 0 = 60000 - pen0
+      | _, _, _, _ => False
+      end
+  | Err _ => False
+  end.
+Proof. vm_compute. repeat split. Qed.
+
+Example C20_pd_nonvacuous :
+  match PriceDiscovery.init_pd 1 6 0 2 2 3 2 1000000000000 5000000000000 2500000000000 with
+  | Ok s0 =>
+      let s := PriceDiscovery.run s0 [PriceDiscovery.Tick 1; PriceDiscovery.Deposit 100 1 1000000;
+                                      PriceDiscovery.Deposit 1 2 300; PriceDiscovery.Tick 3] in
+      match QPd.current_phase s, PriceDiscovery.step s (PriceDiscovery.Withdraw 1 2 100) with
+      | Ok ph, Ok (s', [w]) =>
+          PriceDiscovery.phase_ix ph = PD_PHASE_LinearIncreasingPenalty /\ 0 < PriceDiscovery.penalty_of ph /\
+          w = 100 - 100 * PriceDiscovery.penalty_of ph / PriceDiscovery.MAXP /\ w < 100 /\
+          QPd.current_price s' = Ok 230
+      | _, _ => False
+      end
+  | Err _ => False
+  end.
+Proof. vm_compute. repeat split. Qed.
